@@ -262,6 +262,24 @@ class Tr:
             if any(t != ts[0] for t in ts):
                 raise Untranslatable(f"heterogeneous list {src}")
             return bs, "[" + ", ".join(cs) + "]", ("List", ts[0])
+        if isinstance(node, ast.ListComp):
+            # [elt for v in xs if cond]: map after filter; element and test must be total
+            if len(node.generators) != 1 or len(node.generators[0].ifs) > 1:
+                raise Untranslatable(f"comprehension {src}")
+            g = node.generators[0]
+            b, lst, et = self.iter_list(g.iter, env)
+            pat, add = self.pattern(g.target, et)
+            e2 = dict(env)
+            e2.update(add)
+            if g.ifs:
+                bc, cc = self.C(g.ifs[0], e2)
+                if bc:
+                    raise Untranslatable(f"fallible test in {src}")
+                lst = f"(List.filter (fun {pat} => decide {cc}) {lst})"
+            be, ce, te = self.E(node.elt, e2)
+            if be:
+                raise Untranslatable(f"fallible element in {src}")
+            return b, f"(List.map (fun {pat} => {ce}) {lst})", ("List", te)
         if isinstance(node, ast.Set):
             # {a, b, …}: a set display; sets are lists without repetition, in insertion order
             bs, c = [], "([] : List Nat)"
@@ -1546,7 +1564,7 @@ def driver_source(specs, status, src_root):
     """lean/FinamModel/DriverTr.lean: one case per translated function that does not read an object graph"""
     imports, cases = [], []
     for spec in specs:
-        if (spec.get("heap") or ("slice" in spec and spec.get("group") not in ("Lifecycle", "RunLoop"))
+        if (spec.get("heap") or ("slice" in spec and spec.get("group") not in ("Lifecycle", "RunLoop", "Stuck"))
                 or not status.get(spec["lean"], {}).get("translated")):
             continue
         if spec.get("group") == "Lifecycle":
@@ -1596,6 +1614,10 @@ def driver_source(specs, status, src_root):
                          '(fun w c => match w.1 with | (_, u) :: rest => if rest.isEmpty then Except.error Err.other '
                          'else Except.ok (u, (rest, w.2 ++ [c])) | [] => Except.error Err.other) '
                          '(fun _ _ => Except.ok ()) (fromJ (argAt args 3))).map (fun w => (w.2, w.1.length)))')
+            continue
+        if spec.get("group") == "Stuck":
+            imports.append(f"import FinamModel.Translated.{spec['lean']}")
+            cases.append(f'  | "{spec["lean"]}" => toJ (Tr.{spec["lean"]} (fromJ (argAt args 0)) (fromJ (argAt args 1)))')
             continue
         if spec.get("group") == "Linking":
             # `isinstance(x, IOutput)` / `isinstance(x, IInput)`: the list of the objects that are
